@@ -167,6 +167,15 @@ func (e *Engine) VerifyFunc(t unitTarget) *Unit {
 			sym := u.fresh(nm, c.sortOfType(pt))
 			c.typeFacts(st, sym, pt)
 			switch unalias(pt).Underlying().(type) {
+			case *types.Signature:
+				var obj types.Object
+				if n != nil {
+					obj = info.Defs[n]
+				}
+				if n != nil && !(obj != nil && nilCmp[obj]) && !(t.spec != nil && t.spec.Nullable[n.Name]) {
+					st.assumeT(Ne(sym, IntLit(0)))
+					u.implicitNonNil = append(u.implicitNonNil, n.Name)
+				}
 			case *types.Pointer, *types.Map:
 				c.assumeAllocated(st, sym)
 				var obj types.Object
@@ -309,7 +318,12 @@ func (c *ExecCtx) declareGhostVar(st *State, raw, where string) {
 			env.errf("ghostvar init: %v", err)
 			return
 		}
-		init = env.eval(st, st, ex).T
+		iv := env.eval(st, st, ex)
+		if isNilVal(iv) {
+			init = u.eng.tm.Zero(ty)
+		} else {
+			init = iv.T
+		}
 	}
 	if init == nil || init.Sort != srt {
 		env.errf("ghostvar %s: bad initial value", fs[0])
